@@ -111,7 +111,6 @@ func writeStats() {
 	_ = os.WriteFile(path, b, 0644)
 }
 
-
 // ---- replay files ---------------------------------------------------------------------------
 
 type Replay struct {
